@@ -262,7 +262,12 @@ def check_outside(tree, spec, rec=None):
             "prefix_sibling_dir": up + "data_backup", "absolute_file": os.path.join(root, "outside.txt"),
             "absolute_dir": "/", "parent": up.rstrip("/"), "dangling_outside": up + "nothing-here",
             "updown": up + "odir/../outside.txt",
+            # leaves the directory and comes back in through a link that lives outside
+            "out_and_back": up + "odir/back", "out_and_back_file": up + "odir/backf",
         }[kind]
+        os.symlink(base, os.path.join(root, "odir", "back"))
+        files_in = sorted(p for p, e in D.flatten(tree).items() if e[0] == "f")
+        os.symlink(os.path.join(base, files_in[0]) if files_in else base, os.path.join(root, "odir", "backf"))
         lp = os.path.join(base, ldir, "outlink")
         if os.path.lexists(lp):
             return
@@ -337,7 +342,7 @@ def run_shard(shard, tier, seed, rec):
     elif k == "outside":
         n = {"quick": 150, "thorough": 3000}[tier]
         kinds = ["file", "dir", "prefix_sibling", "prefix_sibling_dir", "absolute_file", "absolute_dir", "parent",
-                 "dangling_outside", "updown"]
+                 "dangling_outside", "updown", "out_and_back", "out_and_back_file"]
         strat = st.tuples(D.trees(2, 3), st.tuples(st.sampled_from(kinds), st.integers(0, 10)))
         hyp.search(strat, lambda c: check_outside(c[0], c[1], rec), rec, seed=s + 50, max_examples=n)
     elif k == "stream":
